@@ -243,6 +243,24 @@ def search(ctx):
                     ctx.violation("C17:ifft-fft-stack-coords", "ifft(fft(x)) of a stack with axes %s does not return its coordinates" % (dims,), info)
             except Exception as ex:
                 ctx.violation("C17:ifft-fft-stack-raises:%s" % type(ex).__name__, "ifft(fft(x, shift=%s)) raised %r for a stack with axes %s" % (sh, ex, dims), info)
+    # ---- single-precision images (what a camera driver or a saved stack delivers) over LONG distances (thousands of wavelengths):
+    # the group law holds to the rounding of the image's own precision
+    for dt_ in (np.float32, np.complex64):
+        for (da, db) in ((3000.0, 2000.0), (30000.0, 20000.0)):
+            nx_, ny_ = int(rng.integers(6, 12)), int(rng.integers(6, 12))
+            imf = rand_image(rng, nx_, ny_, dt_ is np.complex64, spacing=float(rng.uniform(lam / math.sqrt(2) * 1.02, 2 * lam)))
+            imf = imf.astype(dt_)
+            ctx.tried("single-precision-long-distance", (dt_.__name__, da, db))
+            try:
+                pa_ = propagate(imf, da)
+                p12 = propagate(pa_, db)
+                p3 = propagate(imf, da + db)
+                errc = _rel(np.asarray(p12.transpose('x', 'y', ...).values).squeeze(), np.asarray(p3.transpose('x', 'y', ...).values).squeeze())
+                if not (errc <= 2e-5):
+                    ctx.violation("C17:compose:single-precision", "%s image: propagating by %g then %g differs from propagating by %g by %.3g (relative)" % (dt_.__name__, da, db, da + db, errc),
+                                  dict(kind="compose-single", dtype=dt_.__name__, d1=da, d2=db, shape=[nx_, ny_], seed=ctx.seed))
+            except Exception as ex:
+                ctx.violation("C17:raises:single-precision:%s" % type(ex).__name__, "propagating a %s image raised %r" % (dt_.__name__, ex), dict(kind="raises"))
     # ---- propagation laws
     n = ctx.n(40, 400)
     for i in range(n):
